@@ -347,6 +347,19 @@ pub fn run(ctx: &mut Ctx) {
                     }
                 }
             }
+            // very long TLFs (hundreds of leading zero groups) at a few positions
+            if i % 7 == 0 {
+                for ti in (0..e.map.tlfs.len()).step_by(3) {
+                    for extra in [12usize, 253, 254, 255, 256, 300] {
+                        let mut k2 = k.clone();
+                        k2.force_extra_at = Some((ti, extra));
+                        let e2 = encode_file(ast, &k2, &mut rng0);
+                        if e2.bytes != e.bytes {
+                            ctx.eval(&Complete { x: e2.bytes.clone(), ast: Some(ast.clone()), origin: "long-tlf-sweep", enc_class: enc_class(&e2) });
+                        }
+                    }
+                }
+            }
             // the vendor time encoding at each time position, one at a time
             for ti in 0..6 {
                 let mut k2 = k.clone();
